@@ -363,7 +363,9 @@ func (db *RockDB) ZFixKey(ts int64, key []byte) error {
 		dbLog.Infof("get zset card failed: %v", err.Error())
 		return err
 	}
-	elems, err := db.ZRange(key, 0, -1)
+	// read with the entry's timestamp, as the size above: with the wall clock a zset that is live at ts
+	// but expired for this node's clock looked empty and lost its size key, on this replica only
+	elems, err := db.zRangeGenericAt(ts, key, 0, -1, false)
 	if err != nil {
 		dbLog.Infof("get zset range failed: %v", err.Error())
 		return err
@@ -1063,7 +1065,12 @@ func (db *RockDB) ZRevRangeByScore(key []byte, min float64, max float64, offset 
 }
 
 func (db *RockDB) ZRangeGeneric(key []byte, start int, stop int, reverse bool) ([]common.ScorePair, error) {
-	tn := time.Now().UnixNano()
+	return db.zRangeGenericAt(time.Now().UnixNano(), key, start, stop, reverse)
+}
+
+// zRangeGenericAt is ZRangeGeneric with the clock of the expiry decision given by the caller: the wall
+// clock for a read, the timestamp of the raft entry for a command of the apply loop
+func (db *RockDB) zRangeGenericAt(tn int64, key []byte, start int, stop int, reverse bool) ([]common.ScorePair, error) {
 	keyInfo, err := db.getCollVerKeyForRange(tn, ZSetType, key, true)
 	if err != nil {
 		return nil, err
